@@ -14,6 +14,24 @@ from .hx import LP
 
 STATS = {"queries": 0, "solver_s": 0.0, "unknown": 0}
 
+# z3.Sum([t]) is printed as the unary application (+ t), which cvc5 rejects when obligations are dumped for the
+# external cross-check: make sums of fewer than two terms plain terms.
+_z3_sum = z3.Sum
+
+
+def _sum(*args):
+    xs = list(args[0]) if len(args) == 1 and isinstance(args[0], (list, tuple)) else None
+    if xs is None:
+        return _z3_sum(*args)
+    if len(xs) == 0:
+        return z3.IntVal(0)
+    if len(xs) == 1:
+        return xs[0]
+    return _z3_sum(xs)
+
+
+z3.Sum = _sum
+
 
 def q(x):
     fr = Fraction(x)
@@ -77,6 +95,38 @@ class Enc:
         return [fr_of(model, x) for x in self.xs]
 
 
+XCHECK = {"every": int(__import__("os").environ.get("FPVERIF_XCHECK_EVERY", "0") or 0), "n": 0, "done": 0, "agree": 0, "disagree": [], "skipped": 0}
+
+
+def _external(smt2: str, tool: str, timeout_s=30):
+    """re-decide a dumped obligation with an independent solver binary; returns sat|unsat|unknown"""
+    import os
+    import subprocess
+    import tempfile
+    fd, path = tempfile.mkstemp(suffix=".smt2")
+    try:
+        with os.fdopen(fd, "w") as f:
+            f.write(smt2)
+        if tool == "cvc5":
+            cmd = ["cvc5", "--force-logic=ALL", f"--tlimit={timeout_s * 1000}", path]
+        else:
+            cmd = ["/usr/bin/z3", f"-T:{timeout_s}", path]
+        try:
+            p = subprocess.run(cmd, capture_output=True, text=True, timeout=timeout_s + 10)
+        except subprocess.TimeoutExpired:
+            return "unknown"
+        out = (p.stdout + p.stderr)
+        if "(error" in out:
+            return "unknown"          # an error line makes the answer inconclusive, never a verdict
+        for line in out.splitlines():
+            line = line.strip()
+            if line in ("sat", "unsat", "unknown"):
+                return line
+        return "unknown"
+    finally:
+        os.unlink(path)
+
+
 def check(s: z3.Solver, *assumptions) -> str:
     t = time.time()
     r = s.check(*assumptions)
@@ -85,6 +135,23 @@ def check(s: z3.Solver, *assumptions) -> str:
     r = str(r)
     if r == "unknown":
         STATS["unknown"] += 1
+    if XCHECK["every"] and r in ("sat", "unsat"):
+        XCHECK["n"] += 1
+        if XCHECK["n"] % XCHECK["every"] == 0:
+            s2 = z3.Solver()
+            s2.add(s.assertions())
+            s2.add(*assumptions)
+            txt = s2.to_smt2()
+            if len(txt) < 400000:
+                for tool in ("cvc5", "z3-4.8"):
+                    v = _external(txt, tool)
+                    XCHECK["done"] += 1
+                    if v == "unknown":
+                        XCHECK["skipped"] += 1
+                    elif v == r:
+                        XCHECK["agree"] += 1
+                    else:
+                        XCHECK["disagree"].append(f"{tool}: {v} vs z3-5.1: {r}")
     return r
 
 
